@@ -4,6 +4,7 @@ package registry
 import (
 	"verifh/hlex"
 	"verifh/hparse"
+	"verifh/hval"
 )
 
 var Harnesses = map[string]func(){
@@ -16,4 +17,6 @@ var Harnesses = map[string]func(){
 	"verifh/hparse.SchemaRef":   hparse.SchemaRef,
 	"verifh/hparse.SchemaTotal": hparse.SchemaTotal,
 	"verifh/hparse.SchemaLimit": hparse.SchemaLimit,
+	"verifh/hval.Smoke":         hval.Smoke,
+	"verifh/hval.ValidateRef":   hval.ValidateRef,
 }
